@@ -111,7 +111,12 @@ P["C07"] = ("proof", "C07_parses: for every renderable marker (non-empty compoun
             "identically in every environment; C07_specials: <empty> / '' are the renderings of the empty / universal marker, are special-cased by the parser, and <empty> never occurs inside a larger rendering. Lexeme level: lexing itself is packaging's. "
             "Ties: S-mstr (lexed str(m) vs model; model's parser vs packaging's tree), S-mark; direct oracle re-parses with parse_marker and packaging's Marker and compares truth tables.",
             TB_MARKER + "; Model/MarkerStr.v hand-written, tied by the S-mstr stream; lexing is packaging's", "machine-checked proof in Coq over hand models + correspondence + differential oracle", "5")
-for k in ("C02", "C04", "C06", "C17", "C03", "C12", "C11", "C07"):
+P["C15"] = ("proof", "PARTIAL. Proved over Model/Marker.v (every fuel, set order, merge oracle, every input list): C15_multi_of / C15_union_of - MultiMarker.of / MarkerUnion.of return the absorbing marker, the neutral marker, the single marker left "
+            "(singleton unwrapped) or a compound built from at least two pairwise distinct, non-absorbing processed markers, with pairwise distinct children; C15_one_child_refuted reproduces the recorded finding on the model. NOT proved: no neutral / "
+            "same-kind child for arbitrary inputs, union()'s raw candidate, union_simplify / intersect_simplify (where the property is violated on the unchanged tree: known finding). Those are decided by the normal-form checker of the direct oracle "
+            "(every result of parse/&/|/only/exclude, call-site attribution) and by the S-mark correspondence, which compares result SHAPES with the model.",
+            TB_MARKER, "machine-checked proof in Coq (shape of of() results) + structural correspondence + normal-form oracle", "5")
+for k in ("C02", "C04", "C06", "C17", "C03", "C12", "C11", "C07", "C15"):
     ORACLE_ONLY.pop(k, None)
 checks = []
 for pid in sorted(set(P) | set(ORACLE_ONLY)):
